@@ -53,6 +53,20 @@ def list_step_below_new_element(steps):
                for i in range(len(steps) - 2))
 
 
+def containers(node, acc=None):
+    """every dict / list node, by builtin traversal (never the xpath machinery)"""
+    acc = [] if acc is None else acc
+    if isinstance(node, dict):
+        acc.append(node)
+        for v in dict.values(node):
+            containers(v, acc)
+    elif isinstance(node, (list, tuple)):
+        acc.append(node)
+        for v in list.__iter__(node):
+            containers(v, acc)
+    return acc
+
+
 class C03(Prop):
     id = "C03"
     props_file = "Props/C03.v"
@@ -181,6 +195,8 @@ class C03(Prop):
                     case["_refused"] = True
                     raise          # a refusal is the last operation of its history: the observation is the exception
                 continue
+            held = containers(obj)          # kept referenced during the operation so that ids are not reused
+            before_ids = {id(c) for c in held}
             try:
                 X.apply_op(obj, op)
             except RecursionError:
@@ -189,6 +205,9 @@ class C03(Prop):
                 case["_fail"] = fail or "operation %d %r raised %s: %s" % (n, op[:2], type(e).__name__, str(e)[:80])
                 case["_partial"] = not X.same(X.plain(obj), before)
                 raise
+            if fail is None and m["kind"] == "create" and op[0] == "set":
+                fail = self.created_navigable(obj, op, before_ids)
+            del held
         case["_fail"] = fail
         if fail is None and not X.same(X.plain(obj), i["final"]):
             case["_fail"] = "after the history the tree is %r, exactly-the-missing-chain semantics give %r" % (X.plain(obj), i["final"])
@@ -202,6 +221,28 @@ class C03(Prop):
             except Exception as e:  # noqa
                 case["_fail"] = "created structure is not navigable: %s" % type(e).__name__
         return {"ok": L.canon(obj)}
+
+    @staticmethod
+    def created_navigable(obj, op, before_ids):
+        """"Containers created this way are themselves xpath-navigable": every container that exists after the
+        assignment and did not before (the assigned value's own subtree aside) answers relative xpaths to its leaves"""
+        try:
+            val_ids = {id(c) for c in containers(obj[op[1]])}
+        except Exception:  # noqa
+            return None                     # d[xpath] is v fails: reported by the other clauses
+        for c in containers(obj):
+            if id(c) in before_ids or id(c) in val_ids:
+                continue
+            for path, leaf in X.leaf_paths(X.plain(c)):
+                xp = X.canonical_xpath(path)
+                try:
+                    got = c[xp]
+                except Exception as e:  # noqa
+                    return "after d[%r] = v the created %s %r is not xpath-navigable: [%r] raised %s" % (
+                        op[1], type(c).__name__, X.plain(c), xp, type(e).__name__)
+                if not X.same(X.plain(got), leaf):
+                    return "after d[%r] = v the created container %r answers %r for [%r], the leaf is %r" % (op[1], X.plain(c), X.plain(got), xp, leaf)
+        return None
 
     def coq_input(self, case):
         i = case["input"]
